@@ -44,10 +44,11 @@ class Watchdog(Exception):
 class WatchedFifo:
     """FIFO delivery; raises Watchdog when no case has completed for `per_case_s` seconds."""
 
-    def __init__(self, per_case_s):
+    def __init__(self, per_case_s, errs):
         from lib.sim import Fifo
         self.fifo = Fifo()
         self.per_case_s = per_case_s
+        self.errs = errs
         self.last = time.time()
         self.n = 0
 
@@ -56,12 +57,14 @@ class WatchedFifo:
 
     def deliver(self, net):
         self.n += 1
+        if self.errs and any('CancelledError' not in e and 'InvalidState' not in e for e in self.errs):
+            raise Watchdog()      # an exception escaped an MPyC coroutine: the current case never completes
         if self.n % 64 == 0 and time.time() - self.last > self.per_case_s:
             raise Watchdog()
         return self.fifo.deliver(net)
 
 
-def run_cases(ctx, m, t, no_prss, cases, case_coro, seed, per_case_s=8.0, want_log=False):
+def run_cases(ctx, m, t, no_prss, cases, case_coro, seed, per_case_s=5.0, want_log=False):
     """cases: list of JSON-able case descriptions; case_coro(mpc, mods, pid, state, case) -> result.
     Returns list of per-case results: value | ('EXC', name) | ('HANG', info) | ('DIVERGE', per-party values)."""
     from lib.sim import Sim
@@ -79,7 +82,7 @@ def run_cases(ctx, m, t, no_prss, cases, case_coro, seed, per_case_s=8.0, want_l
                 raise RuntimeError('simulator start failed')
             prog_res = [[None] * len(cases) for _ in range(m)]
             start = i
-            pol = WatchedFifo(per_case_s)
+            pol = WatchedFifo(per_case_s, errs)
 
             async def prog(mpc, mods, pid, start=start, prog_res=prog_res, pol=pol):
                 state = {}
@@ -174,7 +177,9 @@ def expected_len(op, la, lb, k):
         return max(la, lb)
     if op in ('mul', 'mul_pub', 'rmul_pub', 's_mul'):
         return 0 if la == 0 or lb == 0 else la + lb - 1
-    if op in ('neg', 'pos', 'copy', 'monic', 'inout', 'reverse_none', 'reverse_sec', 'scale'):
+    if op == 'scale':
+        return la if k else 0      # f * poly(0): the public operand is the empty array
+    if op in ('neg', 'pos', 'copy', 'monic', 'inout', 'reverse_none', 'reverse_sec'):
         return la
     if op == 'lshift':
         return la + k if la else 0
@@ -421,28 +426,60 @@ def oracle(G, p, a, b, op, k):
     raise KeyError(op)
 
 
-def known_bad(a, b, op, k):
-    """Input classes on which this check found the implementation to fail (known_findings/C38.json):
-    F-C38-1 zero polynomial with non-empty padded array reaches reciprocal(0) in _monic: never terminates;
-    F-C38-2 f[i] with i >= padded length: IndexError raised asynchronously (not caught by __getitem__);
-    F-C38-3 is_irreducible(0) with padded length >= 2: division by the zero modulus."""
+DEGREE_OPS = ('degree', 'monic', 'reverse_none', 'reverse_sec', 'lt', 'le', 'gt', 'ge', 'floordiv', 'floordiv_pub',
+              'rfloordiv_pub', 'mod', 'mod_pub', 'rmod_pub', 's_mod', 'divmod', 'rdivmod_pub', 'gcd', 'gcdext', 'invert',
+              'powmod', 'is_irreducible')
+HANG_PRONE = ('monic', 'gcd', 'gcdext', 'invert', 'powmod', 'is_irreducible', 'reverse_none', 'reverse_sec', 'floordiv',
+              'floordiv_pub', 'rfloordiv_pub', 'mod', 'mod_pub', 'rmod_pub', 's_mod', 'divmod', 'rdivmod_pub',
+              'lt', 'le', 'gt', 'ge')
+
+
+def small_field(p, a, b, op, k):
+    """secpols.py: 'for certain operations, p must be sufficiently large, in particular compared to (the public upper
+    bound on) the degree of a given polynomial'.  Degrees -1..len-1 are encoded in GF(p) (explicit guard: _degree
+    asserts len(a) <= p), so the degree-dependent operations need every intermediate padded length < p.  Returns True
+    when (a conservative bound on) an intermediate padded length reaches p."""
+    if op not in DEGREE_OPS:
+        return False
+    la, lb = len(a), (len(b) if b is not None else 0)
+    n = max(la, lb)
+    if op == 'powmod':
+        if k == 0:
+            return False
+        n = 2 * max(la, lb)
+    elif op == 'is_irreducible':
+        n = max(2 * la - 2, 3)
+    elif op in ('gcd', 'gcdext', 'invert'):
+        n = n + 1
+    return n >= p
+
+
+def known_class(p, a, b, op, k, want):
+    """Input classes on which this check found the implementation to disagree with gfpx (known_findings/C38.json).
+    The class name is part of the violation signature."""
     za = not strip(a) and len(a) > 0
     if op == 'monic' and za:
-        return 'zero-polynomial'
+        return 'zero-polynomial'          # F-C38-1: reciprocal(0) never terminates
     if op in ('gcd', 'gcdext') and not strip(a) and not strip(b or []) and max(len(a), len(b or [])) > 0:
-        return 'zero-polynomial'
+        return 'zero-polynomial'          # F-C38-1
     if op == 'getitem' and k >= len(a):
-        return 'index>=len'
+        return 'index>=len'               # F-C38-2: IndexError raised asynchronously
     if op == 'is_irreducible' and za and len(a) >= 2:
-        return 'zero-polynomial'
+        return 'zero-polynomial'          # F-C38-3: division by the zero modulus
+    if op == 'is_irreducible' and want == ('elt', 1) and len(a) - 1 >= 2 * (len(strip(a)) - 1):
+        return 'padded-irreducible'       # F-C38-5: D//2 iterations with D the public bound
+    if p == 2 and (op.endswith('_pub') or op == 'scale') and op not in ('call_pub', 'reverse_pub'):
+        return 'gf2-public-operand'       # F-C38-8: secpoly(BinaryPolynomial) holds polynomial objects as coefficients
+    if op == 'gcdext':
+        return 'gcdext'                   # F-C38-7 candidates: cofactors (classified after comparison)
     return None
 
 
-def small_field_precondition(p, a, b, op):
-    """secpols.py: 'for certain operations, p must be sufficiently large, in particular compared to (the public
-    upper bound on) the degree of a given polynomial' — explicit: _degree asserts len(a) <= p."""
-    n = max(len(a), len(b) if b is not None else 0)
-    return n + 1 >= p or (op in ('mul', 'pow', 'powmod', 'is_irreducible', 'floordiv', 'mod') and 2 * n >= p)
+def horner(p, a, x):
+    y = 0
+    for c in reversed(a):
+        y = (y * x + c) % p
+    return y
 
 
 def canon(res):
@@ -565,13 +602,16 @@ def run(ctx):
 
     model_cases = []
     precond = {}
-    known_seen = {}
-    lens_seen = {}      # (op, k, la, lb) -> set of padded result length tuples
-    tot = 0
+    seen_cls = {}       # (class, op) -> number of representatives run
+    lens_seen = {}      # (op, k, la, lb) -> {padded result lengths: witness}
+    skipped = {}
     exhaustive_done = []
+
+    def skip(why):
+        skipped[why] = skipped.get(why, 0) + 1
+
     for (p, m, t, no_prss, cases, exhaustive) in plan:
         t1 = time.time()
-        # filter: documented preconditions / known hangs (a few representatives of the latter are run on m=1)
         todo, meta = [], []
         for c in cases:
             (pi, a, b, op, k) = c
@@ -580,66 +620,74 @@ def run(ctx):
             want = oracle(G, p, a, bb, op, k)
             if want[0] == 'SKIP':
                 continue
-            kb = known_bad(a, bb, op, k)
-            if kb:
-                if m == 1 and known_seen.get(op, 0) < 1:
-                    known_seen[op] = known_seen.get(op, 0) + 1
+            cls = known_class(p, a, bb, op, k, want)
+            sf = small_field(p, a, bb, op, k)
+            # keep the number of runs that end in a hang / escaped exception (each costs a simulator restart) small:
+            # a few representatives per known failing class and per small-field class, on m=1 only
+            costly = (cls in ('zero-polynomial', 'index>=len')) or (cls == 'gf2-public-operand' and op not in
+                      ('add_pub', 'radd_pub', 'sub_pub', 'rsub_pub', 'mul_pub', 'rmul_pub', 'scale')) or (sf and op in HANG_PRONE)
+            if costly:
+                tag = (cls if cls and cls != 'gcdext' else 'small-field', op)
+                if m == 1 and seen_cls.get(tag, 0) < 1 and sum(seen_cls.values()) < 40:
+                    seen_cls[tag] = seen_cls.get(tag, 0) + 1
                 else:
-                    ctx.hist['skipped: known failing class'] = ctx.hist.get('skipped: known failing class', 0) + 1
+                    skip('known failing class %s' % cls if cls and cls != 'gcdext' else
+                         'small-field region (a padded length >= p), operation may not terminate')
                     continue
             todo.append((pi, a, bb, op, k))
-            meta.append(want)
+            meta.append((want, cls, sf))
         res = run_cases(ctx, m, t, no_prss, todo, make_case_coro(p), seed=ctx.seed + p + 7 * m)
         cfg = 'm=%d%s' % (m, ' no-prss' if no_prss else '')
-        for c, want, got in zip(todo, meta, res):
+        for c, (want, cls, sf), got in zip(todo, meta, res):
             (pi, a, b, op, k) = c
-            tot += 1
             la, lb = len(a), (len(b) if b is not None else 0)
             key = {'p': p, 'a': a, 'b': b, 'op': op, 'k': k, 'cfg': cfg}
+            det = dict(key)
             padded = (len(a) != len(strip(a))) or (b is not None and len(b) != len(strip(b)))
-            kind = '%s GF(%d) %s' % (op, p, cfg)
+            kind = '%s GF(%d)%s' % (op, p, ' ' + cfg if m > 1 else '')
             g, lens = canon(got)
-            if isinstance(g, tuple) and g and g[0] in ('EXC', 'HANG', 'DIVERGE'):
-                if want[0] == 'EXC' and g[0] == 'EXC':
-                    ctx.case(key, nontrivial=False, kind='error-inputs GF(%d)' % p)
-                    continue
-                kb = known_bad(a, b, op, k)
-                if kb:
-                    ctx.violation('secpoly-%s %s %s' % (op, g[0].lower(), kb),
-                                  {'p': p, 'a': a, 'b': b, 'op': op, 'k': k, 'cfg': cfg, 'got': g, 'want': want})
-                    ctx.case(key, nontrivial=True, kind='known-failing ' + op)
-                    continue
-                if g[0] in ('EXC', 'HANG') and small_field_precondition(p, a, b, op) :
+            det.update({'got': g, 'want_gfpx': want})
+            if op in ('call_pub', 'call_sec'):
+                # gfpx is the specification, but BinaryPolynomial.__call__ is itself wrong at even x (returns 0
+                # instead of the constant coefficient): evaluate independently and report the gfpx disagreement
+                hw = ('elt', horner(p, strip(a), k))
+                if hw != want:
+                    ctx.violation('secpoly-%s differs-from-gfpx gfpx-call-gf%d' % (op, p), dict(det, horner=hw))
+                    want = hw
+            bad = isinstance(g, tuple) and g and g[0] in ('EXC', 'HANG', 'DIVERGE')
+            if bad and want[0] == 'EXC' and g[0] == 'EXC':
+                ctx.case(key, nontrivial=False, kind='error-inputs GF(%d)' % p)
+                continue
+            wrong = bad or (want[0] == 'EXC') or g != want
+            if wrong:
+                outcome = g[0].lower() if bad else 'wrong'
+                if cls == 'gcdext' and not bad and g[0] == 'polys' and g[1][0] == want[1][0]:
+                    u, v = g[1][1], g[1][2]
+                    lhs = strip([(x + y) % p for x, y in itertools.zip_longest(polymul(p, u, strip(a)), polymul(p, v, strip(b)), fillvalue=0)])
+                    cls = 'cofactors-differ bezout=%s' % (lhs == g[1][0])
+                elif cls == 'gcdext':
+                    cls = None
+                if sf and bad and g[0] != 'DIVERGE' and cls is None:
                     pk = '%s GF(%d) lens=(%d,%d): %s' % (op, p, la, lb, g[1] if g[0] == 'EXC' else 'no result')
                     precond[pk] = precond.get(pk, 0) + 1
                     ctx.case(key, nontrivial=False, kind='precondition-error GF(%d)' % p)
                     continue
-                ctx.violation('secpoly-%s %s GF(%d) lens=(%d,%d)' % (op, g[0].lower(), p, la, lb),
-                              {'p': p, 'a': a, 'b': b, 'op': op, 'k': k, 'cfg': cfg, 'got': g, 'want': want})
-                continue
-            if want[0] == 'EXC':
-                ctx.violation('secpoly-%s no-error GF(%d)' % (op, p), {'case': key, 'got': g, 'want': want})
-                continue
-            if g != want:
-                sub = ''
-                if op == 'gcdext' and g[0] == 'polys' and g[1][0] == want[1][0]:
-                    u, v = g[1][1], g[1][2]
-                    lhs = strip([(x + y) % p for x, y in itertools.zip_longest(polymul(p, u, strip(a)), polymul(p, v, strip(b)), fillvalue=0)])
-                    sub = ' cofactors-differ bezout=%s' % (lhs == g[1][0])
-                ctx.violation('secpoly-%s wrong%s GF(%d) lens=(%d,%d)' % (op, sub, p, la, lb),
-                              {'p': p, 'a': a, 'b': b, 'op': op, 'k': k, 'cfg': cfg, 'got': g, 'want': want})
+                if cls is None and sf:
+                    cls = 'small-field'
+                ctx.violation('secpoly-%s %s%s GF(%d) lens=(%d,%d)' % (op, outcome, ' ' + cls if cls else '', p, la, lb), det)
+                ctx.case(key, nontrivial=True, kind='failing ' + op)
                 continue
             # padded result length: public function of the operand lengths (closed forms + constancy)
             if lens is not None:
                 el = expected_len(op, la, lb, k)
                 if el is not None and len(lens) == 1 and lens[0] != el:
-                    ctx.violation('secpoly-length %s' % op, {'case': key, 'padded_len': lens, 'expected': el})
-                s = lens_seen.setdefault((op, k, la, lb), {})
-                s.setdefault(tuple(lens), (a, b))
-                if len(s) > 1:
-                    ctx.violation('secpoly-length-leak %s' % op, {'case': key, 'lengths_and_witnesses': {str(x): y for x, y in s.items()}})
-            ctx.case(key, nontrivial=padded or op not in RING, kind=kind if m > 1 else '%s GF(%d)' % (op, p))
-            if op in MODEL_OPS and got[0] in ('poly', 'elt'):
+                    ctx.violation('secpoly-length %s' % op, dict(det, padded_len=lens, expected=el))
+                s_ = lens_seen.setdefault((op, k, la, lb), {})
+                s_.setdefault(tuple(lens), (a, b))
+                if len(s_) > 1:
+                    ctx.violation('secpoly-length-leak %s' % op, dict(det, lengths_and_witnesses={str(x): y for x, y in s_.items()}))
+            ctx.case(key, nontrivial=padded or op not in RING, kind=kind)
+            if op in MODEL_OPS and got[0] in ('poly', 'elt') and (op != 'scale' or p != 2):
                 model_cases.append((op, p, a, b, k, got[1]))
         if exhaustive:
             exhaustive_done.append('GF(%d) m=%d: %d cases' % (p, m, len(todo)))
@@ -647,9 +695,10 @@ def run(ctx):
     ctx.extra['exhaustive'] = bool(exhaustive_done)
     ctx.extra['exhaustive_subspaces'] = exhaustive_done
     ctx.extra['padded_length_classes_checked'] = len(lens_seen)
-    ctx.extra['length_classes_with_two_or_more_value_pairs'] = sum(1 for s in lens_seen.values() if s)
+    ctx.extra['skipped_cases'] = skipped
     if precond:
-        ctx.notes.append('explicit small-field precondition errors (not violations), class: count = %s' % dict(sorted(precond.items())[:60]))
+        ctx.notes.append('explicit errors / no result in the small-field region (a padded length >= p; documented '
+                         'precondition, not violations), class: count = %s' % dict(sorted(precond.items())[:80]))
 
     malformed_stream(ctx)
     traffic_independence(ctx)
@@ -755,10 +804,8 @@ def model_compare(ctx, ok, model_cases):
     res = ctx.coq_eval(['MPyC.SecPoly'], exprs, chunk=150)
     mism = 0
     for (op, p, a, b, k, got), r in zip(model_cases, res):
-        if op == 'degree':
-            got = got if got < p - 1 or len(a) >= p - 1 else -1      # degree -1 is opened as p-1
-            if got == p - 1 and not strip(a):
-                got = -1
+        if op == 'degree' and isinstance(r, int):
+            r = r % p                 # the secure degree is a field element: -1 is opened as p-1
         if op == 'eq':
             r = int(r) if isinstance(r, bool) else r
         if r != got:
